@@ -1,10 +1,13 @@
 ------------------------------- MODULE Project -------------------------------
 (***************************************************************************)
 (* A gqlgen PROJECT over time (DESIGN appendix A.5): schema files, the     *)
-(* configuration, the user's resolver files (methods, helper declarations, *)
-(* imports, the trailing "!!! WARNING !!!" block of the last run), the     *)
-(* fingerprint of the generated output.  User actions edit schema and Go   *)
-(* sources; Generate(seed, startDir, procs) is the generator run.          *)
+(* configuration (layouts; whether autobind lists the model output         *)
+(* package), the user's resolver files (methods, helper declarations, the  *)
+(* root resolver struct, imports, the trailing "!!! WARNING !!!" block of  *)
+(* the last run), the fingerprint of the generated output.  User actions   *)
+(* edit schema and Go sources; Generate(seed, startDir, procs) is the      *)
+(* generator run.  Init is a freshly generated project, so every Generate  *)
+(* of a history runs on the tree that holds the previous output.           *)
 (*                                                                         *)
 (* Generate is written the way plugin/resolvergen + internal/rewrite       *)
 (* behave (which file is rewritten, which earlier declaration a method is  *)
